@@ -17,8 +17,14 @@
    every order x nqubits x normalize x pauli_order; each observation == the fresh object's (exact) == the documented closed
    form (Coq spec by vm_compute on the exact classes); object attribute tree, constructor inputs, input states and arrays
    returned earlier stay untouched.
+ * representation invariance (round 5; harness/repr_inv.py, theorems C01/PropsLayout.v: a view denotes its logical array, a
+   memory-order flattening does not): every class / regime / constructor form as the FIRST operation of a circuit (also through
+   apply_density_matrix and after a layout-preserving Pauli channel) with the initial density matrix as C / Fortran / transposed /
+   strided / sliced views, read-only, big-endian, single precision, float / int arrays, lists; operator matrices, probability tables
+   and parameter lists in these representations at construction.  Equality with the canonical run (exact on the dyadic classes,
+   1e-12 otherwise), itself compared with the documented closed form; inputs not written, results not aliased.
 """
-STATIC = ["C04/LiftTP", "C04/LiftFast", "C04/Object", "C04/Props", "C04/PropsHistory"]
+STATIC = ["C04/LiftTP", "C04/LiftFast", "C04/Object", "C04/Props", "C04/PropsHistory", "C01/PropsLayout"]
 import itertools
 import math
 import random
@@ -537,10 +543,210 @@ def history_stream(run, rng, cases, only=None):
     return found
 
 
+# ----------------------------------------------------------------------------- representation invariance (family F)
+REPR_WRITES = ("input_written", "result_aliases_input", "constructor_input_written")
+
+
+def repr_rho(seed, n, kind):
+    r = random.Random(f"repr-rho:{seed}:{n}:{kind}")
+    d = 2 ** n
+    if kind == "real":                      # real and NOT symmetric
+        A = np.array([[r.randint(-4, 4) for _ in range(d)] for _ in range(d)], dtype=complex)
+        if d > 1:
+            A[0, 1], A[1, 0] = 3, -2
+        return A
+    A = np.array([[r.randint(-4, 4) + 1j * r.randint(-4, 4) for _ in range(d)] for _ in range(d)], dtype=complex)
+    if kind == "hermitian":
+        A = A + A.conj().T
+        if d > 1:
+            A[0, 1] += 2j
+            A[1, 0] -= 2j
+    return A
+
+
+def repr_tag(sp):
+    parts = sp.name.split(":")
+    return sp.cls + (":" + parts[1] if sp.cls == "ThermalRelaxationChannel" else "")
+
+
+def repr_close(a, b, exact):
+    a, b = np.asarray(a), np.asarray(b)
+    if a.shape != b.shape:
+        return False
+    if exact:
+        return bool(np.array_equal(a, b))
+    return bool(np.abs(a - b).max() <= 1e-12 * max(1.0, float(np.abs(b).max())))
+
+
+def repr_exec(sp, n, obj, entry):
+    """entry: circuit (the channel is the FIRST and only operation) | direct (channel.apply_density_matrix(backend, state, n)) |
+    after_pauli (a layout-preserving PauliNoiseChannel first, then the channel)"""
+    from qibo import Circuit, gates
+    from qibo.backends import _check_backend
+    ch = sp.build()
+    if entry == "direct":
+        return np.asarray(ch.apply_density_matrix(_check_backend(None), obj, n))
+    c = Circuit(n, density_matrix=True)
+    if entry == "after_pauli":
+        c.add(gates.PauliNoiseChannel(n - 1, [("Y", 0.25), ("Z", 0.125)]))
+    c.add(ch)
+    return np.asarray(c(initial_state=obj).state())
+
+
+def repr_oracle(sp, n, rho, entry):
+    if entry == "after_pauli":
+        Y, Z = np.array([[0, -1j], [1j, 0]]), np.diag([1.0 + 0j, -1.0])
+        EY, EZ = H.embed_np(n, (n - 1,), Y), H.embed_np(n, (n - 1,), Z)
+        rho = 0.625 * rho + 0.25 * EY @ rho @ EY.conj().T + 0.125 * EZ @ rho @ EZ.conj().T
+    return sp.oracle(n, rho)
+
+
+def repr_one(sp, n, kind, label, entry, seed):
+    """returns (problem or None, detail)"""
+    from harness import repr_inv
+    rho = repr_rho(seed, n, kind)
+    ref = repr_exec(sp, n, rho.copy(), entry)
+    if label == repr_inv.CANON:
+        want = repr_oracle(sp, n, rho, entry)
+        if np.abs(ref - want).max() > 1e-9 * max(1.0, float(np.abs(want).max())):
+            return "canonical_vs_closed_form", f"max difference {float(np.abs(ref - want).max()):.3g}"
+        return None, ""
+    obj, guard = repr_inv.rebuild(label, rho)
+    try:
+        got = repr_exec(sp, n, obj, entry)
+    except Exception as e:  # noqa: BLE001
+        return "raises", f"{type(e).__name__}: {e}"
+    if not repr_close(got, ref, sp.exact):
+        return "differs", f"max difference from the canonical array's result {float(np.abs(got - ref).max()):.3g}"
+    w = guard()
+    if w:
+        return "input_written", w
+    if repr_inv.shares(got, obj):
+        return "result_aliases_input", "the returned state shares memory with the caller's array"
+    return None, ""
+
+
+def ctor_repr_cases(rng):
+    """constructor arguments (operator matrices, probability tables, parameter lists) in every representation"""
+    from qibo import gates
+    K1, K2 = rand_gint(rng, 2).astype(complex), rand_gint(rng, 2).astype(complex)
+    K1[0, 3], K1[3, 0], K2[1, 2], K2[2, 1] = 1 + 2j, -2 + 1j, 2 - 1j, 1j          # never symmetric
+    A = rand_gint(rng, 1).astype(complex)
+    A[0, 1], A[1, 0] = 2 + 1j, -1j
+    P1 = np.array([[0.75, 0.25], [0.125, 0.875]])
+    P2 = np.array([[0.5, 0.25, 0.125, 0.125], [0.0, 0.75, 0.25, 0.0], [0.125, 0.125, 0.25, 0.5], [0.25, 0.0, 0.0, 0.75]])
+    return [
+        ("KrausChannel:operator", 2, K1, False, False, lambda M: gates.KrausChannel((1, 0), [M, K2.copy()])),
+        ("KrausChannel:operator_1q", 2, A, False, False, lambda M: gates.KrausChannel([(1,), (0,)], [M, A.T.copy()])),
+        ("UnitaryChannel:operator", 2, K2, False, False, lambda M: gates.UnitaryChannel((1, 0), [(0.25, M), (0.5, K1.copy())])),
+        ("ReadoutErrorChannel:probabilities_1q", 2, P1, True, True, lambda P: gates.ReadoutErrorChannel(1, P)),
+        ("ReadoutErrorChannel:probabilities_2q", 2, P2, True, True, lambda P: gates.ReadoutErrorChannel((1, 0), P)),
+        ("ThermalRelaxationChannel:t1<t2:parameters", 2, np.array([1.5, 2.25, 0.5, 0.25]), True, True,
+         lambda v: gates.ThermalRelaxationChannel(1, v)),
+        ("ThermalRelaxationChannel:t1>=t2:parameters", 2, np.array([1.5, 0.75, 0.5, 0.25]), True, True,
+         lambda v: gates.ThermalRelaxationChannel(0, v)),
+        ("ThermalRelaxationChannel:t1<t2:integer_parameters", 1, np.array([1.0, 2.0, 1.0, 0.0]), True, True,
+         lambda v: gates.ThermalRelaxationChannel(0, v)),
+        ("ResetChannel:probabilities", 2, np.array([0.25, 0.125]), True, True, lambda v: gates.ResetChannel(1, v)),
+    ]
+
+
+def ctor_repr_one(name, label, seed, rng_seed):
+    from harness import repr_inv
+    for nm, n, arr, real, containers, mk in ctor_repr_cases(random.Random(rng_seed)):
+        if nm != name:
+            continue
+        rho = repr_rho(seed, n, "general")
+        ref = run_dm(mk(np.array(arr, copy=True)), n, rho.copy())
+        obj, guard = repr_inv.rebuild(label, arr, real=real)
+        try:
+            got = run_dm(mk(obj), n, rho.copy())
+        except Exception as e:  # noqa: BLE001
+            return "raises", f"{type(e).__name__}: {e}"
+        if not repr_close(got, ref, False):
+            return "differs", f"max difference from the canonical argument's result {float(np.abs(got - ref).max()):.3g}"
+        w = guard()
+        if w:
+            return "constructor_input_written", w
+        return None, ""
+    raise KeyError(name)
+
+
+SINGLE_SCALARS = ("single", "single_fortran")     # parameter lists in float32 are outside what qibo documents (floats)
+
+
+def repr_stream(run, cases, only=None):
+    """every channel class / regime / constructor form as the FIRST operation of a density-matrix circuit, the initial state in
+    every representation of harness/repr_inv.py; equality with the canonical run (exact on the dyadic classes, 1e-12 else),
+    which is compared with the documented closed form; inputs not written, results not aliased"""
+    from harness import repr_inv
+    seed = run.seed
+    specs = history_specs(random.Random(f"repr:{seed}"), cases, run.tier)
+    found, nexec = {}, 0
+    light = ("fortran", "transposed_view", "strided_view", "single_fortran", "readonly", "list")
+    for sp in specs:
+        sizes = sorted({sp.m, min(3, max(sp.m, 3))}) if run.tier != "quick" or sp.m < 3 else [sp.m]
+        if sp.m > 3:
+            continue
+        for n in sizes:
+            for kind in (("general", "hermitian", "real") if n == sp.m else ("general",)):
+                labels = [l for l, _, _ in repr_inv.variants(repr_rho(seed, n, kind))]
+                for entry in ("circuit", "direct", "after_pauli"):
+                    for label in labels:
+                        if entry != "circuit" and label not in light and label != repr_inv.CANON:
+                            continue
+                        if entry == "direct" and label in ("list", "tuple"):
+                            continue
+                        if kind != "general" and entry != "circuit":
+                            continue
+                        if only is not None and only != (sp.name, n, kind, label, entry):
+                            continue
+                        nexec += 1
+                        pb, detail = repr_one(sp, n, kind, label, entry, seed)
+                        if pb:
+                            key = f"repr:{repr_tag(sp)}:{entry}:{pb}:{label}"
+                            if key not in found or n < found[key][1]["n"]:
+                                found[key] = (f"{sp.name} as {'the first operation' if entry != 'after_pauli' else 'second operation after a PauliNoiseChannel'} "
+                                              f"on {n} qubits ({entry}), initial density matrix ({kind}) given as <{label}>: {pb}: {detail}",
+                                              {"stream": "repr", "spec": sp.name, **sp.info, "n": n, "rho_kind": kind, "variant": label,
+                                               "entry": entry, "problem": pb})
+        run.case(["repr", sp.name])
+    if only is None or only[0].startswith("ctor:"):
+        rs = f"ctor:{seed}"
+        for nm, n, arr, real, containers, mk in ctor_repr_cases(random.Random(rs)):
+            for label, _, _ in repr_inv.variants(arr, containers=containers, real=real):
+                if label == repr_inv.CANON or (arr.ndim == 1 and label in SINGLE_SCALARS):
+                    continue
+                if label == "tuple" and nm.startswith("ReadoutErrorChannel"):
+                    continue      # documented as "array"; a list is accepted, a tuple of tuples is rejected with a TypeError
+                if only is not None and only != ("ctor:" + nm, label):
+                    continue
+                nexec += 1
+                pb, detail = ctor_repr_one(nm, label, seed, rs)
+                run.case(["repr_ctor", nm, label])
+                if pb:
+                    found.setdefault(f"repr:{nm}:constructor:{pb}:{label}",
+                                     (f"{nm}: constructor argument given as <{label}>: {pb}: {detail}",
+                                      {"stream": "repr", "spec": "ctor:" + nm, "variant": label, "problem": pb}))
+    keys = sorted(found)
+    for k in keys[:14]:
+        run.find(k, found[k][0], found[k][1])
+    if len(keys) > 14:
+        run.notes["repr_more_findings"] = keys[14:]
+    run.oblige("repr_channel_result_is_a_function_of_the_logical_array", not any(k.split(":")[-2] in ("differs", "raises", "canonical_vs_closed_form") for k in keys), "correspondence")
+    run.oblige("repr_channel_inputs_not_written_results_not_aliased", not any(k.split(":")[-2] in REPR_WRITES for k in keys), "correspondence")
+    run.notes["repr_stream"] = {"specs": len(specs), "executions": nexec}
+    return found
+
+
 RULE = ("channel class x qubit placement (every position, non-ascending tuples) x random Gaussian-integer rho "
         "(Hermitian and non-Hermitian) x dyadic probabilities; plus representation queries and query/execute histories; "
         "plus histories with arguments on one object per (class / regime / constructor form): register sizes m..4 x execution "
         "variants x orders x nqubits x normalize x pauli_order, each observation vs a fresh object and the closed form; "
+        "plus representations (harness/repr_inv.py): every class / regime / constructor form as the FIRST operation (circuit, "
+        "apply_density_matrix, after a layout-preserving Pauli channel) with the initial density matrix as C / Fortran / transposed / "
+        "strided / sliced views, read-only, single precision, float / int, lists, and operator matrices / probability tables / "
+        "parameter lists in these representations at construction; "
         "distinct = distinct (class, placement, weights, rho)")
 
 
@@ -553,6 +759,8 @@ def main(run):
     run.assumptions += ["exact real arithmetic in the theorems; correspondence data are integers/dyadics so floats are exact"]
     for t in vcore.props_theorems("C04/Props.v") + vcore.props_theorems("C04/Object.v") + vcore.props_theorems("C04/PropsHistory.v"):
         run.oblige(t, True, "static-theorem")
+    for t in vcore.props_theorems("C01/PropsLayout.v"):      # layouts denote their logical array (used by repr_stream)
+        run.oblige("PropsLayout." + t, True, "static-theorem")
     ok, pa = vcore.static_assumptions("C04/Props")
     run.notes["print_assumptions"] = {k: v[:200] for k, v in pa.items()}
     cases = make_cases(rng, run.tier)
@@ -641,6 +849,7 @@ def main(run):
     views_exact(run, cases)
     mixture_checks(run, rng, cases)
     history_stream(run, random.Random(f"hist:{run.seed}"), cases)
+    repr_stream(run, cases)
     kraus_lists(run, rng)
     fast_vs_kraus(run, rng, run.tier)
     for key, stt in _checks.items():
@@ -669,4 +878,12 @@ def replay(run, data):
         found = history_stream(run, random.Random(f"hist:{run.seed}"), cases, only=(rp["spec"], rp["history"]))
         run.findings = [f for f in run.findings if f.key == data.get("key")][:1] or run.findings[:1]
         return run.finish(rule="replay of one recorded history on one channel object")
+    if rp.get("stream") == "repr":
+        run.seed = int(data.get("seed", run.seed))
+        run.tier = data.get("tier", run.tier)
+        _checks.clear()
+        cases = make_cases(random.Random(run.seed), run.tier)
+        only = (rp["spec"], rp["variant"]) if rp["spec"].startswith("ctor:") else (rp["spec"], rp["n"], rp["rho_kind"], rp["variant"], rp["entry"])
+        repr_stream(run, cases, only=only)
+        return run.finish(rule="replay of one recorded representation case")
     return main(run)
